@@ -2,7 +2,7 @@ from common import COMMON_TB
 
 CFG = {
     "technique": "Lean 4 theorems (induction over the version table) + differential run against real bdb",
-    "level_text": "All clauses of C19 are Lean theorems about the model of migration.Upgrade for every table, stored version and failure position; the model is tied to the Go code by a differential run on random and (thorough) exhaustively enumerated small tables on a real bdb database.",
+    "level_text": "All clauses of C19 are Lean theorems about the model of migration.Upgrade for every table, stored version and failure position; the model is tied to the Go code by a differential run on random and (thorough) exhaustively enumerated small tables on a real bdb database, plus real wallet.Open runs on databases whose component versions are behind/at/ahead (multi-component single-transaction clause).",
     "level_note": "Trusted: Lean kernel; the hand model of manager.go (checked by correspondence only on explored inputs); sort.Slice returns a sorted permutation; walletdb.Update atomicity (C11).",
     "lean_props": ["BtcwVerif.Props.C19"],
     "engines": ["migration"],
